@@ -134,9 +134,9 @@ def _lipschitz(rep, name, tag, r, rel, line):
         rep.undecided('R3', tag, 'declared bound %r' % (got,), rel, line)
         return
     got = to_rat(got)
-    if equal(got, want) or equal(got, -want):
-        rep.holds('R3', tag, 'bound %r is the exact constant' % (want,))
-        return
+    # (a bound that is symbolically the signed constant is still too small
+    # where that constant is negative: always go through the witness grid,
+    # which contains parameters of both signs)
     # refute with a rational witness: declared < |true|
     vars_ = sorted({v for v in (got.vars() | want.vars())}, key=repr)
     plain = [v for v in vars_ if isinstance(v, str)]
